@@ -64,7 +64,7 @@ def snapshot(cell):
     return snap
 
 
-def _find_wrapper(self, queue, servers):
+def _find_wrapper(self, queue, servers, *args, **kwargs):
     info = _CURRENT[0]
     if info is not None:
         label = None
@@ -75,13 +75,13 @@ def _find_wrapper(self, queue, servers):
         info.queues.append((label, [
             (app.name, app.final_rank, app.server) for app in queue
         ]))
-    return _ORIG_FIND(self, queue, servers)
+    return _ORIG_FIND(self, queue, servers, *args, **kwargs)
 
 
-def _schedule_wrapper(self):
+def _schedule_wrapper(self, *args, **kwargs):
     rec = _RECORDER[0]
     if rec is None or _CURRENT[0] is not None:
-        return _ORIG_SCHEDULE(self)
+        return _ORIG_SCHEDULE(self, *args, **kwargs)
     info = CycleInfo()
     servers = walk_servers(self)
     info.before = snapshot(self)
@@ -98,7 +98,7 @@ def _schedule_wrapper(self):
     info.c0 = rec.clock.peek()
     _CURRENT[0] = info
     try:
-        info.result = _ORIG_SCHEDULE(self)
+        info.result = _ORIG_SCHEDULE(self, *args, **kwargs)
     finally:
         _CURRENT[0] = None
     info.c1 = rec.clock.peek()
